@@ -162,6 +162,13 @@ PROBES = [
                                                    "DTSTART;TZID=Asia/Tokyo:20200310T200000"]}]))],
      # 20:00 Tokyo = 11:00 UTC: inside 00:00-12:00 UTC; read as floating (20:00 UTC) it is outside
      {"name": "VCALENDAR", "comps": [{"name": "VEVENT", "tr": (0, 1)}]}),
+    ("KF-C10-cross-instance",
+     [("c.ics", ical([{"type": "VEVENT", "lines": ["UID:c", "SUMMARY:x", "DTSTART" + tval(0, "utc"),
+                                                   "ATTENDEE;PARTSTAT=DECLINED:mailto:ann@example.com",
+                                                   "ATTENDEE;PARTSTAT=ACCEPTED:mailto:bob@example.com"]}]))],
+     {"name": "VCALENDAR", "comps": [{"name": "VEVENT", "props": [
+         {"name": "ATTENDEE", "tms": [{"text": "mailto:ann@example.com"}],
+          "params": [{"name": "PARTSTAT", "tms": [{"text": "ACCEPTED"}]}]}]}]}),
     ("KF-C10-param-filter",
      [("p.ics", ical([{"type": "VEVENT", "lines": ["UID:p", "SUMMARY:x", "DTSTART" + tval(0, "utc"),
                                                    "LOCATION;LANGUAGE=en:Room"]}]))],
